@@ -97,5 +97,44 @@ theorem splitFirst_none {sep : UInt8} {bs : Bytes} (h : sep ∉ bs) : splitFirst
     have hb : b ≠ sep := fun e => h.1 e.symm
     simp [splitFirst, hb, ih h.2]
 
+/-! ### hex is injective -/
+
+theorem hexDigit_inj : ∀ x, x < 16 → ∀ y, y < 16 → hexDigit x = hexDigit y → x = y := by decide
+
+theorem toHex_injective : ∀ {a b : Bytes}, toHex a = toHex b → a = b
+  | [], [], _ => rfl
+  | [], _ :: _, h => by simp [toHex] at h
+  | _ :: _, [], h => by simp [toHex] at h
+  | x :: a, y :: b, h => by
+    simp only [toHex, List.cons.injEq] at h
+    obtain ⟨h1, h2, h3⟩ := h
+    have hx := x.toNat_lt
+    have hy := y.toNat_lt
+    have e1 := hexDigit_inj _ (by omega) _ (by omega) h1
+    have e2 := hexDigit_inj _ (Nat.mod_lt _ (by omega)) _ (Nat.mod_lt _ (by omega)) h2
+    have : x.toNat = y.toNat := by omega
+    rw [UInt8.toNat_inj.mp this, toHex_injective h3]
+
+theorem toHex_length (b : Bytes) : (toHex b).length = 2 * b.length := by
+  induction b with
+  | nil => rfl
+  | cons x r ih => simp only [toHex, List.length_cons, ih]; omega
+
+/-- Hex text consists of the characters `0-9a-f`. -/
+theorem hexDigit_range : ∀ x, x < 16 → (48 ≤ (hexDigit x).toNat ∧ (hexDigit x).toNat ≤ 57) ∨
+    (97 ≤ (hexDigit x).toNat ∧ (hexDigit x).toNat ≤ 102) := by decide
+
+theorem mem_toHex {c : UInt8} {b : Bytes} (h : c ∈ toHex b) :
+    (48 ≤ c.toNat ∧ c.toNat ≤ 57) ∨ (97 ≤ c.toNat ∧ c.toNat ≤ 102) := by
+  induction b with
+  | nil => simp [toHex] at h
+  | cons x r ih =>
+    simp only [toHex, List.mem_cons] at h
+    have hx := x.toNat_lt
+    rcases h with rfl | rfl | h
+    · exact hexDigit_range _ (by omega)
+    · exact hexDigit_range _ (Nat.mod_lt _ (by omega))
+    · exact ih h
+
 end Bytes
 end SigModel
